@@ -22,6 +22,15 @@ def names_in(e: ast.AST) -> Set[str]:
     return {n.id for n in ast.walk(e) if isinstance(n, ast.Name)}
 
 
+def _undecidable(rep: Report, what: str, v: object) -> bool:
+    """A result the interpreter could not model is not a verdict: defer an analysis error (reported only when no rule finds a violation)."""
+    from ..absint import OpaqueV
+    if isinstance(v, OpaqueV):
+        rep.defer(AnalysisError(f"{what} returns a value outside the interpreted subset ({getattr(v, 'why', '')})"))
+        return True
+    return False
+
+
 def value_preservation(rep: Report, prog: Program, resolver: Resolver) -> None:
     # Unit.quantify: m*(p*u) = (m*value(p))*u, identity prefix on the result
     u = unit_atom("self")
@@ -30,6 +39,8 @@ def value_preservation(rep: Report, prog: Program, resolver: Resolver) -> None:
         if o.kind != "return":
             continue
         v = o.value
+        if _undecidable(rep, "Unit.quantify", v):
+            continue
         ok = isinstance(v, QuantV) and v.value() == u.value() and not v.unit.p.mono and v.unit.f.mono == u.f.mono
         rep.check("R11.3", "Unit.quantify", ok,
                   f"Unit.quantify returns {describe(v)}; it must be value(prefix) in the same unit without prefix "
@@ -41,6 +52,8 @@ def value_preservation(rep: Report, prog: Program, resolver: Resolver) -> None:
         if o.kind != "return":
             continue
         v = o.value
+        if _undecidable(rep, "Quantity.unprefixed", v):
+            continue
         ok = isinstance(v, QuantV) and v.value() == q.value() and not v.unit.p.mono and v.unit.f.mono == q.unit.f.mono
         rep.check("R11.3", "Quantity.unprefixed", ok,
                   f"Quantity.unprefixed returns {describe(v)}: stripping the prefix must not change the physical value "
@@ -65,6 +78,8 @@ def value_preservation(rep: Report, prog: Program, resolver: Resolver) -> None:
             if o.kind != "return" or isinstance(o.value, NotImpl):
                 continue
             v = o.value
+            if _undecidable(rep, "Prefix.__mul__[number]", v):
+                continue
             ok = isinstance(v, QuantV) and v.mag.rat == other.rat * want and not v.unit.p.mono and not v.unit.f.mono
             rep.check("R11.3", "Prefix.__mul__[number]", ok,
                       f"number * prefix returns {describe(v)}; expected (number * base**exponent) One",
